@@ -5,6 +5,6 @@ cd "$(dirname "$0")"
 rm -f model.ml model.mli
 coqc -Q ../coq/theories KC ../coq/extract/Extract.v >/dev/null
 rm -f ../coq/extract/Extract.vo ../coq/extract/Extract.glob ../coq/extract/.Extract.aux ../coq/extract/Extract.vos ../coq/extract/Extract.vok
-ocamlfind ocamlopt -w -a -O2 -package str model.mli model.ml codec.ml cmd_filter.ml cmd_cache.ml cmd_lister.ml cmd_controller.ml main.ml -o kmodel 2>/dev/null \
-  || ocamlfind ocamlopt -w -a model.mli model.ml codec.ml cmd_filter.ml cmd_cache.ml cmd_lister.ml cmd_controller.ml main.ml -o kmodel
+ocamlfind ocamlopt -w -a -O2 -package str model.mli model.ml codec.ml cmd_filter.ml cmd_cache.ml cmd_lister.ml cmd_controller.ml cmd_fsub.ml cmd_pipeline.ml main.ml -o kmodel 2>/dev/null \
+  || ocamlfind ocamlopt -w -a model.mli model.ml codec.ml cmd_filter.ml cmd_cache.ml cmd_lister.ml cmd_controller.ml cmd_fsub.ml cmd_pipeline.ml main.ml -o kmodel
 rm -f *.cmi *.cmx *.o
